@@ -111,10 +111,17 @@ pub fn emit_graph(files: &std::collections::HashMap<&'static str, String>) -> Va
             .map(|fd| {
               let ty = fd["ty"].as_str().unwrap_or("");
               let has_default_attr = fd["attrs"].as_array().is_some_and(|a| a.iter().any(|x| x.as_str().is_some_and(|s| s.starts_with("default("))));
-              json!({"name": fd["name"], "ty": ty, "edges": type_edges(ty).into_iter().map(|(n, v)| json!([n, v])).collect::<Vec<_>>(), "default_attr": has_default_attr})
+              // wire name (serde rename, else the identifier) and whether serde may omit it: `Option<_>` or a serde default
+              let fattrs: Vec<String> = fd["attrs"].as_array().into_iter().flatten().filter_map(|x| x.as_str().map(|s| s.replace(' ', ""))).collect();
+              let fname = fd["name"].as_str().unwrap_or("").trim_start_matches("r#").to_string();
+              let wire = fattrs.iter().find_map(|a| a.strip_prefix("serde(rename=\"").and_then(|r| r.strip_suffix("\")")).map(str::to_string)).unwrap_or(fname);
+              let optional = ty.replace(' ', "").starts_with("Option<") || fattrs.iter().any(|a| a.starts_with("serde(default"));
+              json!({"name": fd["name"], "ty": ty, "edges": type_edges(ty).into_iter().map(|(n, v)| json!([n, v])).collect::<Vec<_>>(), "default_attr": has_default_attr, "wire": wire, "optional": optional})
             })
             .collect();
-          defs.push(json!({"file": fname, "kind": "struct", "name": name, "derives_default": has_default_derive, "fields": fields}));
+          // container attributes that change what the derived Deserialize accepts
+          let sattrs: Vec<String> = it["attrs"].as_array().into_iter().flatten().filter_map(|x| x.as_str().map(|s| s.replace(' ', ""))).filter(|a| a.starts_with("serde(")).collect();
+          defs.push(json!({"file": fname, "kind": "struct", "name": name, "derives_default": has_default_derive, "fields": fields, "serde": sattrs}));
         }
         "enum" => {
           *defined.entry(name.clone()).or_default() += 1;
@@ -130,7 +137,10 @@ pub fn emit_graph(files: &std::collections::HashMap<&'static str, String>) -> Va
               json!({"name": v["name"], "tys": tys, "edges": edges, "default": is_default})
             })
             .collect();
-          defs.push(json!({"file": fname, "kind": "enum", "name": name, "derives_default": has_default_derive, "variants": variants}));
+          // `#[serde(untagged)]`: variants are tried in declaration order; without it (and with payloads) the enum
+          // has a hand-written, tag-dispatching Deserialize
+          let untagged = it["attrs"].as_array().is_some_and(|a| a.iter().any(|x| x.as_str().is_some_and(|s| s.replace(' ', "") == "serde(untagged)")));
+          defs.push(json!({"file": fname, "kind": "enum", "name": name, "derives_default": has_default_derive, "untagged": untagged, "variants": variants}));
         }
         "type" => {
           *defined.entry(name.clone()).or_default() += 1;
